@@ -105,8 +105,9 @@ def run_variants(prop: str, pkg_dir: str, jobs: int = None):
     return todo, results
 
 
-def judge(todo, results):
-    """Return (summary dict, list of failures)."""
+def judge(todo, results, base_keys=frozenset()):
+    """Return (summary dict, list of failures).  `base_keys`: what the unmodified current tree itself raises - a twin is
+    silent when it raises nothing beyond that."""
     summary = {"variants": len(todo), "breaks_fired": 0, "twins_silent": 0, "skipped": 0, "failed": []}
     details = []
     for v in todo:
@@ -120,6 +121,9 @@ def judge(todo, results):
             summary["failed"].append(f"{vid}: checker crashed: {fired}")
             continue
         if exp == "silent":
+            if status == "ran" and base_keys:
+                keys = [k for k in keys if k not in base_keys]
+                fired = sorted({k.split("[", 1)[0] for k in keys})
             if status == "ran" and not fired:
                 summary["twins_silent"] += 1
                 details.append({"id": vid, "expect": "silent", "outcome": "silent", "what": v.get("what", "")})
@@ -145,7 +149,8 @@ def judge(todo, results):
 def run_for(chk, prop: str):
     import sa
     todo, results = run_variants(prop, sa.PKG_DIR)
-    summary = judge(todo, results)
+    base_new = chk.new_violations()
+    summary = judge(todo, results, frozenset(f"{o.rule}[{o.key}]" for o in base_new))
     # the value-flow normal form itself: equivalent snippets get equal summaries, different ones do not
     from . import terms_check
     tfail = terms_check.run()
@@ -153,6 +158,11 @@ def run_for(chk, prop: str):
                                     len(terms_check.INLINE_EQUIVALENT), "failed": len(tfail)}
     summary["failed"] = list(summary["failed"]) + [f"normal form: {t[:120]}" for t in tfail]
     chk.selfcheck = summary
+    if summary["failed"] and base_new:
+        # the tree under test violates the property: that verdict stands (exit 1); what the self-validation could not
+        # confirm on top of a violating tree is recorded, not raised
+        chk.note("self-validation on a violating tree: " + "; ".join(summary["failed"][:3]))
+        return
     if summary["failed"]:
         raise AnalysisError("self-validation failed (the checker is broken for this tree): " +
                             "; ".join(summary["failed"][:5]))
